@@ -124,7 +124,11 @@ pub fn gen_case(seed: u64, run: u64, faults: bool, real_every: u64) -> Case {
             8..=10 => {
                 // ask for help or version somewhere
                 argv = gen::base_sentence(&mut r, &opts, false);
-                let h = gen::help_tokens(&opts);
+                // the help and version names of every level, nested commands included
+                let mut h: Vec<Tok> = Vec::new();
+                opts.walk_opts(&mut |o| h.extend(gen::help_tokens(o)));
+                h.sort();
+                h.dedup();
                 let at = r.below(argv.len() + 1);
                 argv.insert(at, r.pick(&h).clone());
                 if r.chance(1, 4) {
@@ -154,6 +158,35 @@ pub fn gen_case(seed: u64, run: u64, faults: bool, real_every: u64) -> Case {
                 );
                 let at = if r.chance(3, 4) { 0 } else { r.below(argv.len() + 1) };
                 argv.insert(at, format!("--bpaf-complete-style-{}", style).into_bytes());
+            }
+            17 if r.chance(2, 3) => {
+                // a plain request: a path of command names, then a help or version name
+                let mut level = &opts;
+                loop {
+                    let mut cmds = Vec::new();
+                    level_commands(&level.root, &mut cmds);
+                    if cmds.is_empty() || r.chance(1, 3) {
+                        break;
+                    }
+                    if let crate::shape::Shape::Cmd {
+                        name,
+                        shorts,
+                        longs,
+                        opts,
+                        ..
+                    } = *r.pick(&cmds)
+                    {
+                        let mut names: Vec<Tok> = vec![name.as_bytes().to_vec()];
+                        if r.chance(1, 4) {
+                            names.extend(longs.iter().map(|l| l.as_bytes().to_vec()));
+                            names.extend(shorts.iter().map(|c| c.to_string().into_bytes()));
+                        }
+                        argv.push(r.pick(&names).clone());
+                        level = &**opts;
+                    }
+                }
+                let h = gen::help_tokens(level);
+                argv.push(r.pick(&h).clone());
             }
             17 => {}
             18 if r.chance(1, 2) => {
@@ -485,6 +518,99 @@ pub fn stdout_has_cause(opts: &Opts, rest: &[Tok]) -> bool {
         return true;
     }
     false
+}
+
+/// commands that are fields of this level (not of a nested one)
+fn level_commands<'a>(s: &'a crate::shape::Shape, out: &mut Vec<&'a crate::shape::Shape>) {
+    use crate::shape::Shape;
+    match s {
+        Shape::Cmd { .. } => out.push(s),
+        Shape::Wrap(_, i) => level_commands(i, out),
+        Shape::Seq(xs, _) | Shape::Alt(xs) => {
+            for x in xs {
+                level_commands(x, out)
+            }
+        }
+        _ => {}
+    }
+}
+
+/// A line that is nothing but a path of command names followed by one word that every level on
+/// that path knows as a help or version name, in a definition where no other item can take such
+/// a word (no `any`/`literal`, no item spelled like it): whichever level ends up seeing the word,
+/// the documented answer is help or version on stdout.
+pub fn plain_request(opts: &Opts, rest: &[Tok]) -> bool {
+    use crate::shape::Shape;
+    let (last, path) = match rest.split_last() {
+        Some(x) => x,
+        None => return false,
+    };
+    let mut clean = true;
+    opts.walk_opts(&mut |o| clean &= o.cargo.is_none());
+    opts.root.walk(&mut |s| match s {
+        Shape::Any { .. } | Shape::Literal { .. } | Shape::Battery(_) => clean = false,
+        other => {
+            if let Some(n) = other.named() {
+                if gen::all_spellings(n).iter().any(|t| t == last) {
+                    clean = false;
+                }
+            }
+        }
+    });
+    if !clean {
+        return false;
+    }
+    // a level is passed through only if it consists of commands and nothing else: with other
+    // fields in front of the command `construct!` reports *their* failure (a missing required
+    // item) rather than the help the command produced - that is how bpaf orders its answers
+    fn only_commands(s: &crate::shape::Shape) -> bool {
+        use crate::shape::Shape;
+        match s {
+            Shape::Cmd { .. } => true,
+            Shape::Wrap(_, i) => only_commands(i),
+            Shape::Alt(xs) => xs.iter().all(only_commands),
+            Shape::Seq(xs, _) => xs.len() == 1 && only_commands(&xs[0]),
+            _ => false,
+        }
+    }
+    let mut level = opts;
+    if !gen::help_tokens(level).contains(last) {
+        return false;
+    }
+    for word in path {
+        if !only_commands(&level.root) {
+            return false;
+        }
+        let mut cmds = Vec::new();
+        level_commands(&level.root, &mut cmds);
+        let next = cmds.into_iter().find_map(|c| match c {
+            Shape::Cmd {
+                name,
+                shorts,
+                longs,
+                opts,
+                ..
+            } => {
+                let hit = name.as_bytes() == &word[..]
+                    || longs.iter().any(|l| l.as_bytes() == &word[..])
+                    || shorts.iter().any(|c| c.to_string().as_bytes() == &word[..]);
+                if hit {
+                    Some(&**opts)
+                } else {
+                    None
+                }
+            }
+            _ => None,
+        });
+        level = match next {
+            Some(l) => l,
+            None => return false,
+        };
+        if !gen::help_tokens(level).contains(last) {
+            return false;
+        }
+    }
+    true
 }
 
 fn show(b: &[u8]) -> String {
@@ -925,6 +1051,27 @@ pub fn run_case(case: &Case, stats: &mut Stats) -> RunReport {
                 "rule=P5 completion-without-request".to_string(),
                 "completion output although no completion was requested".to_string()
             );
+        }
+        // ---- P7: a plain request for help or version is answered on stdout, at any level
+        if plain_request(opts, rest) {
+            stats.bump("rule.P7.evaluated");
+            if rest.len() > 1 {
+                stats.bump("probe.plain_request_inside_a_command");
+            }
+            if e.class != "stdout" {
+                violation!(
+                    "P7",
+                    ix,
+                    format!("rule=P7 request-not-answered class={}", e.class),
+                    format!(
+                        "the command line {:?} is a path of command names followed by a help/version name of every level on it, and nothing else in the definition can take that word, yet the outcome is of class {}\nstdout would be: {:?}\nstderr would be: {:?}",
+                        rest.iter().map(|t| String::from_utf8_lossy(t).to_string()).collect::<Vec<_>>(),
+                        e.class,
+                        show(&e.stdout),
+                        show(&e.stderr)
+                    )
+                );
+            }
         }
         stats.bump("rule.P5.evaluated");
         stats.bump(&format!("class.{}", e.class));
